@@ -927,7 +927,8 @@ func (p *queryPlan) projectAndGroupBy() error {
 		// Update sorting configuration.
 		found := false
 		for _, g := range p.stm.GroupByBindings() {
-			if prj.Binding == g {
+			// GROUP BY names output bindings: the alias when there is one.
+			if g == prj.Alias || (prj.Alias == "" && g == prj.Binding) {
 				found = true
 			}
 		}
